@@ -40,10 +40,10 @@ type Obl struct {
 	TimeS  float64
 	Model  string
 	File   string
-	part   bool     // a conjunct of a split goal (never split again)
+	part   bool            // a conjunct of a split goal (never split again)
 	Block  *ssa.BasicBlock // top-level block the obligation belongs to
-	Cut    *cutRec  // the last cut this obligation lies behind
-	Drops  [][2]int // ranges of context commands whose assertions are forgotten (contract `cut` statements)
+	Cut    *cutRec         // the last cut this obligation lies behind
+	Drops  [][2]int        // ranges of context commands whose assertions are forgotten (contract `cut` statements)
 }
 
 // cutRec: a `cut` executed in block; obligations generated afterwards in that block or in blocks it dominates
@@ -126,7 +126,7 @@ type VC struct {
 	blockMarks     []blockMark          // where the context commands of each top-level block start
 	cfReach        map[int]map[int]bool // acyclic reachability between the top-level function's blocks
 	cuts           []*cutRec
-	reqStart       int // context length before the requires clauses
+	reqStart       int               // context length before the requires clauses
 	curBlock       *ssa.BasicBlock   // block of the top-level frame being executed
 	entryLen       int               // context length after the requires clauses
 	localKinds     map[string]string // layout kind of local-variable state leaves
